@@ -1,2 +1,134 @@
-import NSG.Model.Coord
-/-! # C06 (theorems under construction) -/
+import NSG.Properties.C01
+import NSG.Properties.C04
+/-! # C06 — start and end-of-episode barriers hold for all agents -/
+namespace NSG.Coord
+open NSG NSG.Defender
+
+def Out.code? : Out → Option Code
+  | .reply _ r => some r.code
+  | .lost _ r => some r.code
+  | _ => none
+
+def Out.finalOK : Out → Bool
+  | .reply _ r | .lost _ r => r.code = .ok && (r.obs.map (·.ended)).getD false
+  | _ => false
+
+/-- CREATED / final OK answers in a list of outputs -/
+def hasCreated (outs : List Out) : Bool := outs.any (fun o => o.code? = some .created)
+def hasFinal (outs : List Out) : Bool := outs.any Out.finalOK
+
+theorem emit_any (s : St) (c : Nat) (r : Reply) (p : Out → Bool) :
+    (emit s c r).2.any p = if s.mute c then p (.lost c r) else p (.reply c r) := by
+  unfold emit; split <;> simp
+
+theorem releaseEnd_no_created (s : St) (l : List Nat) : hasCreated (releaseEnd s l).2 = false := by
+  induction l generalizing s with
+  | nil => rfl
+  | cons c cs ih =>
+    simp only [releaseEnd]
+    split
+    · simp only [hasCreated, List.any_append, Bool.or_eq_false_iff]
+      refine ⟨?_, ih _⟩
+      simp only [finishGame, emit_any]
+      split <;> simp [Out.code?]
+    · exact ih s
+
+theorem releaseStart_no_final (S : Settings) (s : St) (l : List Nat) : hasFinal (releaseStart S s l).2 = false := by
+  induction l generalizing s with
+  | nil => rfl
+  | cons c cs ih =>
+    simp only [releaseStart]
+    split
+    · simp only [hasFinal, List.any_append, Bool.or_eq_false_iff]
+      refine ⟨?_, ih _⟩
+      simp only [emit_any]
+      split <;> simp [Out.finalOK, createdReply]
+    · simp only [hasFinal, List.any_append, Bool.or_eq_false_iff]
+      refine ⟨?_, ih _⟩
+      simp only [finishReset, emit_any]
+      split <;> simp [Out.finalOK]
+    · exact ih s
+
+/-- **Start barrier.** The background phase answers a join (CREATED) only while the start event is
+set - which the join handler sets exactly when the number of agents in the game equals the
+required number of players - and then it answers *all* waiting joins (`releaseStart` walks every
+agent in the game). -/
+theorem C06_created_needs_start (S : Settings) (s : St) (o : Oracle) (e r : Bool)
+    (h : hasCreated (settle S s o e r).2 = true) : (settle S s o e r).1.startEv = true := by
+  unfold settle at h ⊢
+  generalize hp1 : (if e then releaseEnd (rewardTask S s) s.ids else (s, [])) = p1 at h ⊢
+  obtain ⟨s1, o1⟩ := p1
+  have hno : hasCreated o1 = false := by
+    cases e
+    · simp only [Bool.false_eq_true, if_false, Prod.mk.injEq] at hp1; rw [← hp1.2]; rfl
+    · simp only [if_true] at hp1
+      have := releaseEnd_no_created (rewardTask S s) s.ids
+      rw [hp1] at this; exact this
+  simp only at h ⊢
+  generalize (if r then resetTask S s1 o else s1) = s2 at h ⊢
+  by_cases hs : s2.startEv = true
+  · simp only [hs, if_true] at h ⊢
+    -- releaseStart does not change the start event
+    have : ∀ (st : St) (l : List Nat), (releaseStart S st l).1.startEv = st.startEv := by
+      intro st l
+      induction l generalizing st with
+      | nil => rfl
+      | cons c cs ih =>
+        simp only [releaseStart]
+        split
+        · rw [ih]; unfold emit; split <;> rfl
+        · rw [ih]; simp only [finishReset]; unfold emit; split <;> rfl
+        · exact ih st
+    generalize hp3 : releaseStart S s2 s2.ids = p3 at h ⊢
+    obtain ⟨s3, o3⟩ := p3
+    have := this s2 s2.ids
+    rw [hp3] at this
+    simpa [hs] using this
+  · simp only [hs] at h
+    simp only [hasCreated, List.any_append, Bool.or_eq_true] at h
+    rcases h with h | h
+    · simp only [hasCreated] at hno; rw [hno] at h; cases h
+    · simp at h
+
+/-- the join handler sets the start event exactly when the required number of players is reached -/
+theorem C06_start_event_set (S : Settings) (s : St) (c : Nat) (n : String) (r : Role) (o : Oracle)
+    (hc : s.conn c = .reading) (hin : s.inGame c = false) (hs : s.startEv = false)
+    (h : hasCreated (deliver S s (.msg c (.join n (some r)) o)).2 = true) : (s.ids ++ [c]).length = S.required := by
+  simp only [deliver, hc, handle, hin, Bool.false_eq_true, if_false] at h
+  by_cases hl : (s.ids ++ [c]).length = S.required
+  · exact hl
+  · exfalso
+    simp only [hl, if_false] at h
+    have := C06_created_needs_start S _ o false false h
+    -- without reaching the quorum nothing sets the start event
+    unfold settle at this
+    simp [St.setConn, St.setAgent, hs] at this
+
+/-- **End barrier.** The background phase releases final observations only when it was started
+with the episode-end event, i.e. when every agent in the game had finished. -/
+theorem C06_final_needs_all_ended (S : Settings) (s : St) (o : Oracle) (e r : Bool)
+    (h : hasFinal (settle S s o e r).2 = true) : e = true := by
+  cases e with
+  | true => rfl
+  | false =>
+    exfalso
+    unfold settle at h
+    simp only [Bool.false_eq_true, if_false] at h
+    generalize (if r then resetTask S s o else s) = s2 at h
+    split at h
+    · simp only [List.nil_append] at h
+      rw [releaseStart_no_final] at h; cases h
+    · simp [hasFinal] at h
+
+/-- a non-final observation is never held back: it is in the outputs of the very delivery that
+consumed its request (see `C04_handle_game` / `C04_nonfinal_reply`): the handler does not park. -/
+theorem C06_nonfinal_immediate (s : St) (c : Nat) (a : Act) (hc : (s.conn c).pend = 0) :
+    answers c (finishGame s c a).2 = 1 ∧ ((finishGame s c a).1.conn c).pend = 0 := by
+  have := emit_law (s.updAgent c (recordStep a)) c { code := .ok, obs := some (obsOf (s.agent c)) } c
+  simp only [if_true] at this
+  simp only [finishGame]
+  have h2 : ((emit (s.updAgent c (recordStep a)) c { code := .ok, obs := some (obsOf (s.agent c)) }).1.conn c).pend = 0 := by
+    unfold emit; split <;> simp [St.setConn, Phase.pend]
+  omega
+
+end NSG.Coord
